@@ -268,6 +268,40 @@ MUST_FIRE = [
      "        self.queried_samples_ += np.sum(queried)\n        # update the random state", "        self.queried_samples_ += np.count_nonzero(queried_indices)\n        # update the random state"),
     ("periodic-observed-counts-elements", ["C04"], ["R4.6"], P + "stream/_stream_baselines.py",
      "        self.observed_samples_ += len(queried)\n", "        self.observed_samples_ += np.size(candidates)\n"),
+    ("budget-manager-not-copied", ["C03", "C06", "C10", "C13"], ["R3", "R6.5", "R10.10", "R13.1"], P + "utils/_validation.py",
+     "budget_manager_ = copy.deepcopy(budget_manager)", "budget_manager_ = budget_manager"),
+    ("budget-manager-shallow-copied", ["C03", "C06", "C10", "C13"], ["R3", "R6.5", "R10.10", "R13.1"], P + "utils/_validation.py",
+     "budget_manager_ = copy.deepcopy(budget_manager)", "budget_manager_ = copy.copy(budget_manager)"),
+    ("spal-row-sum-not-kept", ["C10"], ["R10.11"], P + "stream/_stream_probabilistic_al.py",
+     "n = pwc.predict_freq(candidates).sum(axis=1, keepdims=True)", "n = pwc.predict_freq(candidates).sum(axis=1)"),
+    ("biqf-commit-sorted", ["C10"], ["R10.3"], P + "stream/budgetmanager/_balanced_incremental_quantile_filter.py",
+     "self.history_sorted_.extend(utilities)", "self.history_sorted_.extend(np.sort(utilities))"),
+    ("vote-weights-nan-not-zeroed", ["C11", "C17"], ["R11.9", "R17.2"], P + "utils/_aggregation.py",
+     "    w[is_unlabeled_y] = 1\n\n    # count class labels per class and weight by confidence scores\n    w[np.logical_or(np.isnan(w), is_unlabeled_y)] = 0\n",
+     "    # count class labels per class and weight by confidence scores\n    w[is_unlabeled_y] = 0\n"),
+    ("ensemble-member-classes-and", ["C11"], ["R11.10"], P + "classifier/multiannotator/_annotator_ensemble_classifier.py",
+     "if self.classes is None or est[1].classes is None:", "if self.classes is None and est[1].classes is None:"),
+    ("regressor-labels-coerced-to-float", ["C12"], ["R12.6"], P + "base.py",
+     "            y = column_or_1d(y) if y_ensure_1d else y\n        else:\n            check_X_dict[\"ensure_2d\"] = False\n\n        if sample_weight is not None:",
+     "            y = column_or_1d(y, dtype=np.float64) if y_ensure_1d else y\n        else:\n            check_X_dict[\"ensure_2d\"] = False\n\n        if sample_weight is not None:"),
+    ("sklearn-clf-weights-scaled-by-global-mean", ["C12"], ["R12.1"], P + "classifier/_wrapper.py",
+     "                elif fit_function == \"fit\":\n                    fit_kwargs[\"sample_weight\"] = sample_weight[is_lbld]\n",
+     "                elif fit_function == \"fit\":\n                    sample_weight = sample_weight / np.mean(sample_weight)\n                    fit_kwargs[\"sample_weight\"] = sample_weight[is_lbld]\n"),
+    ("is-unlabeled-nonfinite-sentinel", ["C12", "C16"], ["R12.7", "R16.2"], P + "utils/_label.py",
+     "    if isinstance(missing_label, float) and np.isnan(missing_label):\n        return np.isnan(y)\n",
+     "    if isinstance(missing_label, float) and not np.isfinite(missing_label):\n        return np.isnan(y)\n"),
+    ("icw-partial-fit-base-not-copied", ["C08", "C19"], ["R8.12", "R19.3"], P + "pool/utils.py",
+     "                self.clf_ = deepcopy(self.base_clf_)\n", "                self.clf_ = self.base_clf_\n"),
+    ("cfe-whole-batch-fallback", ["C08", "C11"], ["R8.12", "R11.2"], P + "base.py",
+     "        normalizer = np.sum(P, axis=1)\n        P[normalizer > 0] /= normalizer[normalizer > 0, np.newaxis]\n        P[normalizer == 0, :] = [1 / len(self.classes_)] * len(self.classes_)\n        return P\n",
+     "        normalizer = np.sum(P, axis=1, keepdims=True)\n        if np.all(normalizer > 0):\n            return P / normalizer\n        return np.full_like(P, 1 / len(self.classes_))\n"),
+    ("typiclust-clustering-seed-dropped", ["C06"], ["R6.3"], P + "pool/_typi_clust.py",
+     "            cluster_algo_dict.setdefault(\"random_state\", self.random_state_)\n", "            pass\n"),
+    ("clue-clustering-seed-dropped", ["C06"], ["R6.3"], P + "pool/_clue.py",
+     "            cluster_algo_dict.setdefault(\"random_state\", self.random_state_)\n", "            pass\n"),
+    ("saw-assignment-unbounded-while", ["C07"], ["R7.4"], P + "pool/multiannotator/_wrapper.py",
+     "        for _ in range(int(np.max(n_max_chosen_annotators, initial=0))):\n            if n_annotator_sample_pairs >= batch_size:\n                break\n",
+     "        while n_annotator_sample_pairs < batch_size:\n"),
     # ---- C04
     ("fixed-guard-false-path", ["C04"], ["R4.1"], BZ, "                d = False\n", "                pass\n"),
     ("variable-guard-reversed", ["C04"], ["R4.2"], BZ,
